@@ -18,6 +18,9 @@
 (*                                 "none" (no position), "foreign" (another *)
 (*                                 file), "range" (outside the text)        *)
 (*   [e |-> "exit", p]             phase p returned                         *)
+(*   [e |-> "span", p, q]          shorthand: phases p..q were entered and  *)
+(*                                 returned one after the other and no      *)
+(*                                 error was counted meanwhile              *)
 (*   [e |-> "raise", p, x, r]      phase p raised; x = "CompileError",      *)
 (*                                 "CompilerCrash", "AbortError",           *)
 (*                                 "InternalError", "Other"; r: the         *)
@@ -71,6 +74,16 @@ Apply(st, ev, kinds) ==
      ELSE IF ev.x = "CompilerCrash" THEN Bad(st, "crash-reported")
      ELSE IF ev.x = "InternalError" THEN Bad(st, "internal-error")
      ELSE Bad(st, "internal-exception")
+  ELSE IF ev.e = "span" THEN
+     \* shorthand for enter p, exit p, .., enter q, exit q with the error count n unchanged throughout
+     IF st.status # "run" \/ st.in \/ ev.p # st.pc + 1 \/ ev.q < ev.p \/ ev.q > Len(kinds) THEN Bad(st, "phase-order")
+     ELSE IF ev.n # st.nerr THEN Bad(st, "error-count")
+     ELSE IF st.nerr > 0 /\ \E k \in ev.p..ev.q : kinds[k] \in {"abort", "codegen"} THEN
+          LET k1 == CHOOSE k \in ev.p..ev.q : /\ kinds[k] \in {"abort", "codegen"}
+                                               /\ \A j \in ev.p..(k - 1) : kinds[j] \notin {"abort", "codegen"}
+          IN Bad([st EXCEPT !.pc = k1 - 1, !.in = (kinds[k1] = "abort"), !.n0 = st.nerr],
+                 IF kinds[k1] = "abort" THEN "abort-missed" ELSE "codegen-after-errors")
+     ELSE [st EXCEPT !.pc = ev.q, !.n0 = st.nerr]
   ELSE Bad(st, "unknown-event")
 
 (* the two terminal situations of the property *)
